@@ -7,7 +7,10 @@ from harness.agree import agrees, klass
 CELLS = ['Sheet1!A1', 'Sheet1!B1', 'Sheet1!C1', 'Sheet1!D1']
 
 
-def evaluate_case(text, asg, covered=False):
+BIG_CHAIN = 80
+
+
+def evaluate_case(text, asg, covered=False, big=False):
     """-> (abstract value or {'t': 'pyexc'}, spy log).  covered: another formula of the model mentions the range A1:E1, so
     that the blank cells of the assignment exist in the model (as empty cells) instead of being absent"""
     L = xl.lib()
@@ -26,9 +29,26 @@ def evaluate_case(text, asg, covered=False):
             forms = {'Sheet1!Z1': text, 'Sheet1!Q1': '=Q1+1'}
             if covered:
                 forms['Sheet1!Y1'] = '=COUNTA(A1:E1)'
+            target = 'Sheet1!Z1'
+            if big:       # the formula under test is reached from a cell whose dependency graph holds many formula cells,
+                import re      # and its spies / unknown functions live in cells of their own, mentioned where they stood
+                def cellify(m):
+                    k = int(m.group(1))
+                    forms[f'Sheet1!P{k + 1}'] = f'=SPY({k})'
+                    return f'P{k + 1}'
+                ztext = re.sub(r'SPY\((\d+)\)', cellify, text)
+                if 'NOSUCHFUNC()' in ztext:
+                    forms['Sheet1!O1'] = '=NOSUCHFUNC()'
+                    ztext = ztext.replace('NOSUCHFUNC()', 'O1')
+                forms['Sheet1!Z1'] = ztext
+                forms['Sheet1!H1'] = '=1'
+                for i in range(2, BIG_CHAIN + 1):
+                    forms[f'Sheet1!H{i}'] = f'=H{i - 1}+1'
+                forms['Sheet1!W1'] = f'=IF(H{BIG_CHAIN}>0,Z1,Z1)'
+                target = 'Sheet1!W1'
             model, ev = xl.build_model(cells, forms)
             ev.namespace['SPY'] = SPY
-            return {'abs': xl.to_abs(ev.evaluate('Sheet1!Z1'))}
+            return {'abs': xl.to_abs(ev.evaluate(target))}
         except BaseException as e:      # noqa
             if isinstance(e, (KeyboardInterrupt, SystemExit, sandbox._Timeout)):
                 raise
@@ -162,11 +182,13 @@ def worker(blocks):
         judge(out, text, asg, case['kind'], outs, False)
         if any(v['t'] == 'blank' for v in asg) or 'E1' in text:
             judge(out, text, asg, case['kind'], outs, True)
+        if hash(text) % 5 == 0 and 'Z1' not in text and 'Y1:Z1' not in text:
+            judge(out, text, asg, case['kind'], outs, False, big=True)
     return out
 
 
-def judge(out, text, asg, kind, outs, covered, extra=None):
-    obs, log = evaluate_case(text, asg, covered)
+def judge(out, text, asg, kind, outs, covered, extra=None, big=False):
+    obs, log = evaluate_case(text, asg, covered, big)
     ok = admissible(obs, log, outs)
     if ok is None:
         out['open'] += 1
@@ -178,6 +200,9 @@ def judge(out, text, asg, kind, outs, covered, extra=None):
         c = {'formula': text, 'cells': asg, 'kind': kind}
         if covered:
             c['covered'] = True
+        if big:
+            c['reached_through'] = f'W1 =IF(H{BIG_CHAIN}>0,Z1,Z1) over a chain of {BIG_CHAIN} formula cells'
+
         c.update(extra or {})
         out['dis'].append({'case': c, 'exp': outs, 'obs': {'value': obs, 'spy_log': log},
                            'features': {'kind': kind, 'clause': 'spy-log' if val_ok else 'value', 'obs': klass(obs) if obs['t'] != 'pyexc' else 'pyexc:' + obs.get('cls', ''),
